@@ -65,3 +65,209 @@ def compare(pred, row, flat):
     if list(pred["hook_failed"]) != end["hook_failed"]:
         diffs.append("hook_failed spec %s impl %s" % (pred["hook_failed"], end["hook_failed"]))
     return diffs
+
+
+def judge_row(rid, prog_tla, cfg_tla, row):
+    """driver row -> row of Run_Trace (uniform records, markers as records)"""
+    end = row["end"]
+
+    def recs(marks):
+        return [{"t": m["t"], "el": m["el"], "pos": m["pos"]} for m in _marks_to_recs(marks, 0)]
+    e2 = {"verdict": end["verdict"], "ran": end["ran"] and not end["escaped"], "escaped": end["escaped"],
+          "status": end["status"], "hook_failed": end["hook_failed"], "step_status": end["step_status"],
+          "eff": end["eff"],
+          "errmarks": [[recs(x) for x in per] for per in end["errmarks"]],
+          "captured": [recs(x) for x in end["captured"]],
+          "real_out": recs(end["real_out"]), "real_err": recs(end["real_err"]), "user_log": recs(end["user_log"])}
+    return {"id": rid, "prog": prog_tla, "cfg": cfg_tla, "events": row["events"], "end": e2}
+
+
+# ----------------------------------------------------------------------------- shared stage with cache
+import fcntl
+import gzip
+import hashlib
+import time
+
+from vlib import tlc as _tlc, trace as _trace
+from vlib.core import REPO, VERIF
+
+CACHE = os.path.join(VERIF, ".cache")
+
+
+def tree_key(extra):
+    h = hashlib.sha256()
+    roots = [os.path.join(REPO, "behave"), os.path.join(VERIF, "specs"), os.path.join(VERIF, "harness", "run"),
+             os.path.join(VERIF, "harness", "vlib")]
+    for root in roots:
+        for d, dirs, files in sorted(os.walk(root)):
+            dirs[:] = sorted(x for x in dirs if x != "__pycache__")
+            for f in sorted(files):
+                if f.endswith((".py", ".tla", ".cfg")):
+                    p = os.path.join(d, f)
+                    h.update(p.encode())
+                    with open(p, "rb") as fh:
+                        h.update(fh.read())
+    h.update(json.dumps(extra, sort_keys=True).encode())
+    return h.hexdigest()[:24]
+
+
+def plan(tier, seed):
+    """-> list of (prog, cfgs, faults)"""
+    rnd = random.Random(seed)
+    out = []
+    quick = tier == "quick"
+    exprs = list(G.EXPRS)
+
+    def rcfg():
+        return G.cfg(expr=rnd.choice(exprs), stop=rnd.random() < 0.3, dry=rnd.random() < 0.15,
+                     show_skipped=rnd.random() < 0.6, cont=rnd.random() < 0.15,
+                     capture=(rnd.random() < 0.75, rnd.random() < 0.75, rnd.random() < 0.75))
+
+    def rfaults(p, n):
+        nh = G.count_hooks_upper(G.flatten(p))
+        fs = [[0, 0]]
+        for _ in range(n):
+            a = rnd.randint(1, nh)
+            fs.append([a, 0] if rnd.random() < 0.8 else [a, rnd.randint(1, nh)])
+        return fs
+
+    if quick:
+        for p in G.family_scen(2):
+            out.append((p, [G.cfg(), rcfg()], rfaults(p, 2)))
+        for p in G.family_tree(rnd, 260):
+            out.append((p, [rcfg(), rcfg()], rfaults(p, 2)))
+        for p in G.family_big(rnd, 40):
+            out.append((p, [rcfg()], rfaults(p, 2)))
+    else:
+        base = [G.cfg(), G.cfg(stop=True), G.cfg(dry=True), G.cfg(cont=True), G.cfg(show_skipped=False, capture=(False, True, False))]
+        for p in G.family_scen(3):
+            nh = G.count_hooks_upper(G.flatten(p))
+            out.append((p, base, [[0, 0]] + [[k, 0] for k in range(1, nh + 1)]))
+        for p in G.family_tree(rnd, 4000):
+            nh = G.count_hooks_upper(G.flatten(p))
+            out.append((p, [rcfg() for _ in range(3)], [[0, 0]] + [[k, 0] for k in range(1, nh + 1)] + rfaults(p, 3)[1:]))
+        for p in G.family_big(rnd, 1500):
+            out.append((p, [rcfg(), rcfg()], rfaults(p, 6)))
+    return out
+
+
+def shared(chk, part="core"):
+    """Run (or load) the shared stage for this tree / tier / seed.  Returns a dict:
+       n_runs, tlc: [{module,cfg,distinct,generated,wall,coverage}], verdicts: {clause: [ {key, ...} ]},
+       divergences, samples, design_violations"""
+    key = tree_key({"tier": chk.tier, "seed": chk.seed, "part": part, "v": 3})
+    os.makedirs(CACHE, exist_ok=True)
+    path = os.path.join(CACHE, "%s-%s.json.gz" % (part, key))
+    lock = open(os.path.join(CACHE, "%s.lock" % part), "w")
+    fcntl.flock(lock, fcntl.LOCK_EX)
+    try:
+        if os.path.exists(path) and not os.environ.get("VERIF_NOCACHE"):
+            with gzip.open(path, "rt") as fh:
+                res = json.load(fh)
+            res["cached"] = True
+            return res
+        res = _compute(chk, part)
+        for old in os.listdir(CACHE):
+            if old.startswith(part + "-") and old.endswith(".json.gz"):
+                os.unlink(os.path.join(CACHE, old))
+        with gzip.open(path + ".tmp", "wt") as fh:
+            json.dump(res, fh)
+        os.rename(path + ".tmp", path)
+        res["cached"] = False
+        return res
+    finally:
+        fcntl.flock(lock, fcntl.LOCK_UN)
+        lock.close()
+
+
+def _compute(chk, part):
+    import shutil
+    import tempfile
+    t0 = time.time()
+    pl = plan(chk.tier, chk.seed)
+    cases, info = [], {}
+    for i, (p, cfgs, faults) in enumerate(pl):
+        case, flat = C.make_case(i + 1, p, cfgs, faults)
+        cases.append(case)
+        info[i + 1] = (p, flat, cfgs, faults, case)
+    tmp = tempfile.mkdtemp(prefix="verif-stage-")
+    tlc_runs = []
+    preds = {}
+    design = []
+    try:
+        # TLC: explore every (case, cfg, fault set); invariants in every state; emit every behaviour
+        nchunks = 1 if chk.tier == "quick" else 8
+        size = (len(cases) + nchunks - 1) // nchunks
+        for c in range(nchunks):
+            part_cases = cases[c * size:(c + 1) * size]
+            if not part_cases:
+                continue
+            cf = os.path.join(tmp, "cases%d.ndjson" % c)
+            _tlc.write_ndjson(cf, part_cases)
+            r = _tlc.run_tlc("Run_MC", env={"CASE_FILE": cf}, workers=16, timeout=3000, heap="12g")
+            tlc_runs.append({"module": "Run_MC", "cfg": "Run_MC.cfg", "distinct": r.distinct, "generated": r.generated,
+                             "wall_s": round(r.wall, 1), "depth": r.depth,
+                             "actions_covered": {k: v[1] for k, v in sorted(r.coverage.items())}})
+            for name in r.violated:
+                design.append({"inv": name, "clause": "", "key": []})
+            for t in r.by_tag("DESIGNVIOL"):
+                design.append({"inv": "PropsHold", "clause": t[4], "key": [t[1], t[2], t[3]]})
+            for t in r.by_tag("CASE"):
+                d = json.loads(t[1])
+                preds[(d["tid"], d["ci"], d["fi"])] = d
+            os.unlink(cf)
+    finally:
+        shutil.rmtree(tmp, ignore_errors=True)
+    # the real code on exactly the explored inputs
+    jobs = []
+    for tid in sorted(info):
+        p, flat, cfgs, faults, case = info[tid]
+        for ci, c in enumerate(cfgs):
+            for fi, f in enumerate(faults):
+                jobs.append({"key": [tid, ci + 1, fi + 1], "prog": p, "flat": flat, "cfg": c, "fault": f,
+                             "fault_kind": "assert" if (tid + ci + fi) % 3 == 0 else "exc"})
+    out = drive_all(jobs)
+    for row in out:
+        if "driver_error" in row:
+            raise RuntimeError("driver failed on %s:\n%s" % (row["key"], row["driver_error"]))
+    jrows, divergences, div_samples = [], 0, []
+    for n, row in enumerate(out):
+        k = tuple(row["key"])
+        case = info[k[0]][4]
+        jrows.append(judge_row(n + 1, case["prog"], case["cfgs"][k[1] - 1], row))
+        if k in preds:
+            d = compare(preds[k], row, info[k[0]][1])
+            if d:
+                divergences += 1
+                if len(div_samples) < 5:
+                    div_samples.append({"key": list(k), "diff": d[:3]})
+        else:
+            divergences += 1
+
+    class _Acc(object):
+        tlc_runs = []
+    acc = _Acc()
+    acc.tlc_runs = []
+    verdicts = _trace.judge_rows(acc, "Run_Trace", jrows, chunks=16)
+    for m, c, r in acc.tlc_runs:
+        tlc_runs.append({"module": m, "cfg": c, "distinct": r.distinct, "generated": r.generated, "wall_s": round(r.wall, 1),
+                         "depth": r.depth, "actions_covered": {}})
+    byclause = {}
+    for rid, vs in verdicts.items():
+        job = jobs[rid - 1]
+        row = out[rid - 1]
+        for v in vs:
+            byclause.setdefault(v[2], []).append({
+                "key": job["key"], "cfg": job["cfg"], "fault": job["fault"], "fault_kind": job["fault_kind"], "prog": job["prog"],
+                "status": row["end"]["status"], "step_status": row["end"]["step_status"], "verdict": row["end"]["verdict"],
+                "escaped": row["end"]["escaped"]})
+    samples = []
+    for j in (0, len(jobs) // 2, len(jobs) - 1):
+        job, row = jobs[j], out[j]
+        R = drive.Rendered(job["prog"], job["flat"])
+        samples.append({"cfg": job["cfg"], "fault_positions": job["fault"], "feature_text": R.files[0][1],
+                        "observed_events": len(row["events"]), "verdict_failed": row["end"]["verdict"], "statuses": row["end"]["status"]})
+    nontrivial = len({json.dumps([j["prog"], j["cfg"], j["fault"]], sort_keys=True) for j in jobs})
+    return {"n_runs": len(jobs), "n_programs": len(pl), "tlc": tlc_runs, "verdicts": byclause, "divergences": divergences,
+            "divergence_samples": div_samples, "samples": samples, "design_violations": design[:200],
+            "distinct_inputs": nontrivial, "wall_s": round(time.time() - t0, 1), "n_predicted": len(preds)}
